@@ -29,7 +29,7 @@ def run(ctx):
         'tagged messages). Not decided: which schedules occur; picklability of verdict payloads across processes.')
     res.not_decided = ['the schedules themselves (whether a late answer occurs)', 'equality of verdicts across processes for unpicklable payloads']
     res.assumptions = ['player / extractors / comparator raise ordinary exceptions; a consumer calling .throw() into the generator is outside the property']
-    ca = res.clause('C08.a', 'R-TYPESTATE', 'exactly one yield per id on every path of an iteration', floor=1)
+    ca = res.clause('C08.a', 'R-TYPESTATE', 'exactly one yield per id on every path of an iteration', floor=3)
     cb = res.clause('C08.b', 'R-PROV', 'Comparison labelled with the loop id; payload from this iteration only', floor=2)
     cc = res.clause('C08.c', 'R-CONTAIN', 'per-recording containment (routine and worker loop)', floor=3)
     cd = res.clause('C08.d', 'R-WHOCALLS', 'both modes reach the same play-and-compare routine', floor=1)
@@ -59,6 +59,20 @@ def run(ctx):
                         'an iteration over one recording id can end with %d comparisons yielded: every id must get exactly one verdict' % cnt,
                         witness=d.path_to(node, st)))
 
+    ca.instance('no ordinary failure inside an iteration leaves the generator (everything after the worker call is covered too)', runc.qualname,
+                not d.iter_escapes)
+    if d.iter_escapes:
+        node, st = d.iter_escapes[0]
+        res.add(Finding('C08', 'C08.a', 'R-TYPESTATE', runc.file, runc.qualname, runc.node.lineno,
+                        'exception from %s leaves the run inside an iteration' % st.extra.get('exc_src'),
+                        'an ordinary exception raised while one recording is handled (%s) is not covered by the per-recording catch-all: the run aborts, that '
+                        'recording gets no verdict and later recordings are never compared' % st.extra.get('exc_src'), witness=d.path_to(node, st)))
+    ca.instance('closing the generator at a yield is not answered by another yield', runc.qualname, not d.yield_after_close)
+    if d.yield_after_close:
+        node, st = d.yield_after_close[0]
+        res.add(Finding('C08', 'C08.a', 'R-TYPESTATE', runc.file, runc.qualname, node.line, 'yield after GeneratorExit',
+                        'a handler of the run catches the GeneratorExit delivered when the consumer closes the generator and yields again: close() fails '
+                        '(RuntimeError) and the clean-up that stops the worker does not run', witness=d.path_to(node, st)))
     # ---------------- C08.b
     loops = [n for n in walk_own(runc.node) if isinstance(n, ast.For)]
     main = None
